@@ -34,7 +34,7 @@ def render (s : St) : String :=
   let q := if s.queue.isEmpty then "-" else ",".intercalate (s.queue.map fun e => toString e.idx)
   let i := match s.inflight with | some (e, _) => toString e.idx | none => "-1"
   let fl := if s.fs.isEmpty then "-" else
-    ";".intercalate (s.fs.map fun f => s!"{b01 f.cur.resp}.{b01 f.cur.err}.{b01 f.cur.marked}.{b01 f.backup.isSome}.{f.cur.ver}")
+    ";".intercalate (s.fs.map fun f => s!"{b01 (f.cur.resp && !f.cur.err)}.{b01 f.cur.err}.{b01 f.cur.marked}.{b01 f.backup.isSome}.{f.cur.ver}")
   s!"{q} {i} {fl}|v{variant s}|o{b01 s.seq}|b{s.bg.length}"
 
 def c53Step (s : St) (line : String) : St × String :=
